@@ -379,6 +379,16 @@ def labelOffset (c : Code) (l : Nat) : Option Nat :=
   let fpos := finalPositions (c.zip forms) 0
   labelPos c fpos l
 
+/-- the offset under which the debug info lists method `i` of `n`: addMethodsToDebugInfo (debug.go:234-239) skips
+    every scope with `rng.Start == rng.End`, which is meant for functions that were never compiled but also hits a
+    compiled function that consists of a single instruction (a lone RET). -/
+def debugOffset (c : Code) (n i : Nat) : Option Nat :=
+  match labelOffset c i with
+  | none => none
+  | some off =>
+    let next := if i + 1 < n then (labelOffset c (i + 1)).getD 0 else (assemble c).length
+    if next == off + 1 then none else some off
+
 /-- compile : Prog → Script. -/
 def compile (p : Prog) : Bytes := assemble (compProg p)
 
